@@ -6,7 +6,7 @@
 use std::marker::PhantomData;
 use std::panic::AssertUnwindSafe;
 
-use tevec::prelude::{Cast, DateTime, IntoCast, IsNone, Number, Time, TimeDelta, unit};
+use tevec::prelude::{BoolType, Cast, DateTime, IntoCast, IsNone, Number, Time, TimeDelta, unit};
 use vh::*;
 
 type DtNs = DateTime<unit::Nanosecond>;
@@ -101,7 +101,7 @@ fn simple_display(x: f64, single: bool) -> bool {
     if x.fract() == 0.0 {
         return x.abs() < bound;
     }
-    (x * 8.0).fract() == 0.0 && x.abs() < 1048576.0
+    (x * 8.0).fract() == 0.0 && x.abs() < if single { 1024.0 } else { 1048576.0 }
 }
 
 fn rand_f64(rng: &mut Rng) -> f64 {
@@ -128,7 +128,7 @@ impl V for f64 {
     fn values(th: bool, rng: &mut Rng) -> Vec<Self> {
         let mut v = F64_VALUES.to_vec();
         if th {
-            for _ in 0..60 {
+            for _ in 0..300 {
                 let x = rand_f64(rng);
                 if !x.is_nan() {
                     v.push(x)
@@ -158,7 +158,7 @@ impl V for f32 {
     fn values(th: bool, rng: &mut Rng) -> Vec<Self> {
         let mut v = F32_VALUES.to_vec();
         if th {
-            for _ in 0..40 {
+            for _ in 0..200 {
                 let x = if rng.chance(1, 2) { f32::from_bits(rng.next() as u32) } else { rand_f64(rng) as f32 };
                 if !x.is_nan() {
                     v.push(x)
@@ -191,7 +191,7 @@ macro_rules! impl_v_int {
             fn values(th: bool, rng: &mut Rng) -> Vec<Self> {
                 let mut v: Vec<$t> = vec![$($v as $t),*];
                 v.push(<$t>::MAX); v.push(<$t>::MIN); v.push(<$t>::MAX - 1); v.push(<$t>::MIN + 1);
-                if th { for _ in 0..40 { v.push(rand_i64(rng) as $t) } }
+                if th { for _ in 0..120 { v.push(rand_i64(rng) as $t) } }
                 let mut out: Vec<$t> = vec![];
                 for x in v { if !out.contains(&x) { out.push(x) } }
                 out
@@ -249,6 +249,58 @@ const STR_VALUES: &[&str] = &[
     "abc", "true", "false", "True", "TRUE", "1 ", " 1", "None ", "none", "NONE", "Some(1)", "1_000", "0x10", "१",
 ];
 
+/// seeded numeric-looking texts (thorough tier): sign, digits, optional fraction / exponent, occasional junk
+fn rand_text(rng: &mut Rng) -> String {
+    let mut t = String::new();
+    match rng.below(6) {
+        0 => t.push('-'),
+        1 => t.push('+'),
+        _ => {}
+    }
+    let cap = if rng.chance(1, 3) { 22 } else { 6 };
+    let nd = rng.below(cap);
+    for _ in 0..nd {
+        t.push((b'0' + rng.below(10) as u8) as char)
+    }
+    if rng.chance(1, 2) {
+        t.push('.');
+        let cap = if rng.chance(1, 4) { 25 } else { 5 };
+        for _ in 0..rng.below(cap) {
+            t.push((b'0' + rng.below(10) as u8) as char)
+        }
+    }
+    if rng.chance(1, 3) {
+        t.push(if rng.chance(1, 2) { 'e' } else { 'E' });
+        match rng.below(4) {
+            0 => t.push('-'),
+            1 => t.push('+'),
+            _ => {}
+        }
+        let ne = rng.below(4);
+        for _ in 0..ne {
+            t.push((b'0' + rng.below(10) as u8) as char)
+        }
+    }
+    if rng.chance(1, 12) {
+        let junk = ['x', ' ', '_', 'N', '-', '.'];
+        let at = rng.below(t.len() + 1);
+        t.insert(at, junk[rng.below(junk.len())]);
+    }
+    t
+}
+fn str_values(th: bool, rng: &mut Rng) -> Vec<String> {
+    let mut v: Vec<String> = STR_VALUES.iter().map(|s| s.to_string()).collect();
+    if th {
+        for _ in 0..400 {
+            let t = rand_text(rng);
+            if !v.contains(&t) {
+                v.push(t)
+            }
+        }
+    }
+    v
+}
+
 fn str_cells(s: &str) -> Vec<Cell> {
     let mut c = vec![Cell::Int(s.len() as i128)];
     c.extend(s.bytes().map(|b| Cell::Int(b as i128)));
@@ -276,8 +328,8 @@ impl V for String {
     const NAME: &'static str = "String";
     const KIND: Kind = Kind::Str;
     const OPT: bool = false;
-    fn values(_: bool, _: &mut Rng) -> Vec<Self> {
-        STR_VALUES.iter().map(|s| s.to_string()).collect()
+    fn values(th: bool, rng: &mut Rng) -> Vec<Self> {
+        str_values(th, rng)
     }
     fn coq(&self) -> String {
         str_coq(self)
@@ -297,8 +349,8 @@ impl V for &'static str {
     const NAME: &'static str = "&str";
     const KIND: Kind = Kind::Str;
     const OPT: bool = false;
-    fn values(_: bool, _: &mut Rng) -> Vec<Self> {
-        STR_VALUES.to_vec()
+    fn values(th: bool, rng: &mut Rng) -> Vec<Self> {
+        str_values(th, rng).into_iter().map(|s| &*Box::leak(s.into_boxed_str())).collect()
     }
     fn coq(&self) -> String {
         str_coq(self)
@@ -703,6 +755,40 @@ where
     }
 }
 
+/// Number::f32/f64/i32/i64/usize, to::<u8>, min_/max_
+fn number_cases<T>(cx: &mut Ctx, ncode: &str, is_float: bool)
+where
+    T: V + Number + Cast<u8> + Into<NumCell>,
+{
+    let mut rng = cx.rng.clone();
+    for v in T::values(cx.th, &mut rng) {
+        let vc = v.clone();
+        cx.em.case(
+            "exact",
+            &format!("fn=number ty={} value={}", T::NAME, vclass_tag(&v)),
+            &format!("Number::f32, f64, i32, i64, usize, to::<u8>{} on {} : {}", if is_float { "" } else { ", min_, max_" }, v.show(), T::NAME),
+            || format!("run_number {} {}", ncode, vc.coq()),
+            || {
+                let mut c = vec![Cell::F(v.f32() as f64), Cell::F(v.f64()), Cell::Int(v.i32() as i128),
+                                 Cell::Int(v.i64() as i128), Cell::Int(v.usize() as i128),
+                                 Cell::Int(Cast::<u8>::cast(v) as i128)];
+                if !is_float {
+                    c.push(T::min_().into().0);
+                    c.push(T::max_().into().0);
+                }
+                c
+            },
+        );
+    }
+}
+struct NumCell(Cell);
+impl From<f32> for NumCell { fn from(x: f32) -> Self { NumCell(Cell::F(x as f64)) } }
+impl From<f64> for NumCell { fn from(x: f64) -> Self { NumCell(Cell::F(x)) } }
+impl From<i32> for NumCell { fn from(x: i32) -> Self { NumCell(Cell::Int(x as i128)) } }
+impl From<i64> for NumCell { fn from(x: i64) -> Self { NumCell(Cell::Int(x as i128)) } }
+impl From<u64> for NumCell { fn from(x: u64) -> Self { NumCell(Cell::Int(x as i128)) } }
+impl From<usize> for NumCell { fn from(x: usize) -> Self { NumCell(Cell::Int(x as i128)) } }
+
 // ---------------------------------------------------------------------------------------------------
 // the sort comparators
 
@@ -873,6 +959,22 @@ fn main() {
     order_cases::<&'static str>(&mut cx);
     order_cases::<DtMs>(&mut cx);
     per_number!(&mut cx; (f32, "F32"), (f64, "F64"), (i32, "I32"), (i64, "I64"), (u64, "U64"), (usize, "Usize"));
+
+    number_cases::<f32>(&mut cx, "F32", true);
+    number_cases::<f64>(&mut cx, "F64", true);
+    number_cases::<i32>(&mut cx, "I32", false);
+    number_cases::<i64>(&mut cx, "I64", false);
+    number_cases::<u64>(&mut cx, "U64", false);
+    number_cases::<usize>(&mut cx, "Usize", false);
+    for b in [false, true] {
+        cx.em.case(
+            "exact",
+            &format!("fn=bool_type value={}", b),
+            &format!("BoolType::bool_ on {} and &{}", b, b),
+            || format!("run_bool_ {}", coq_bool(b)),
+            || vec![Cell::Int(BoolType::bool_(b) as i128), Cell::Int(BoolType::bool_(&b) as i128)],
+        );
+    }
 
     // 2. the cast lattice: every pair of the universe
     all_pairs!(&mut cx;
